@@ -1247,6 +1247,13 @@ func ruleParallel(c *Ctx, r *Rep) {
 		pos  token.Pos
 	}
 	var cands []cand
+	type arrayOb struct {
+		key     string
+		pos     token.Pos
+		guarded bool
+		what    string
+	}
+	var arrayObs []arrayOb
 	sliceObj := func(e ast.Expr) types.Object {
 		id, ok := unparen(e).(*ast.Ident)
 		if !ok {
@@ -1326,6 +1333,59 @@ func ruleParallel(c *Ctx, r *Rep) {
 				return true
 			})
 		}
+		// a fixed-size array indexed by an index that a user-sized slice bounds: needs an explicit bound test
+		walkStack(fd.Body, func(q ast.Node, stack []ast.Node) bool {
+			ix, ok := q.(*ast.IndexExpr)
+			if !ok {
+				return true
+			}
+			aid, ok := unparen(ix.X).(*ast.Ident)
+			iid, ok2 := unparen(ix.Index).(*ast.Ident)
+			if !ok || !ok2 || info.Uses[aid] == nil {
+				return true
+			}
+			arr, isArr := info.Uses[aid].Type().Underlying().(*types.Array)
+			b, bounded := bound[info.Uses[iid]]
+			if !isArr || !bounded {
+				return true
+			}
+			guarded := false
+			for i := len(stack) - 1; i >= 0 && !guarded; i-- {
+				var list []ast.Stmt
+				switch blk := stack[i].(type) {
+				case *ast.BlockStmt:
+					list = blk.List
+				case *ast.CaseClause:
+					list = blk.Body
+				case *ast.IfStmt:
+					// enclosed by `if i < len(A)` / `if i < N`
+					s := c.Src(blk.Cond)
+					if blk.Body.Pos() <= ix.Pos() && ix.End() <= blk.Body.End() && (strings.Contains(s, iid.Name+" < len("+aid.Name+")") || strings.Contains(s, fmt.Sprintf("%s < %d", iid.Name, arr.Len()))) {
+						guarded = true
+					}
+					continue
+				default:
+					continue
+				}
+				for _, st := range list {
+					if st.End() > ix.Pos() {
+						break
+					}
+					if ifs, ok := st.(*ast.IfStmt); ok {
+						s := c.Src(ifs.Cond)
+						if (strings.Contains(s, iid.Name+" >= len("+aid.Name+")") || strings.Contains(s, fmt.Sprintf("%s >= %d", iid.Name, arr.Len()))) && len(ifs.Body.List) > 0 {
+							switch ifs.Body.List[len(ifs.Body.List)-1].(type) {
+							case *ast.BranchStmt, *ast.ReturnStmt:
+								guarded = true
+							}
+						}
+					}
+				}
+			}
+			key := fmt.Sprintf("parallel:%s:%s/%s", c.enclosingName(p, ix.Pos()), aid.Name, b.Name())
+			arrayObs = append(arrayObs, arrayOb{key, ix.Pos(), guarded, fmt.Sprintf("%s indexes the %d-element array %s with an index bounded only by len(%s)", c.enclosingName(p, ix.Pos()), arr.Len(), aid.Name, b.Name())})
+			return true
+		})
 		seen := map[[2]types.Object]bool{}
 		ast.Inspect(fd.Body, func(q ast.Node) bool {
 			ix, ok := q.(*ast.IndexExpr)
@@ -1512,6 +1572,9 @@ func ruleParallel(c *Ctx, r *Rep) {
 		} else {
 			r.Bad(key, cd.pos, "%s indexes %s with an index bounded by len(%s), and the call site at %s neither passes the same slice for both nor leaves on a length mismatch first: an out-of-range index panics inside the native, where try cannot catch it", c.enclosingName(p, cd.pos), cd.a.Name(), cd.b.Name(), c.Pos(badSite))
 		}
+	}
+	for _, ob := range arrayObs {
+		r.Check(ob.guarded, ob.key, ob.pos, "%s; an explicit bound test on the index dominates it: %v (a longer input array is an index-out-of-range panic inside the native, where try cannot catch it: `[range(9)] | mktime`)", ob.what, ob.guarded)
 	}
 	if len(cands) == 0 {
 		r.Undecided("census", token.NoPos, "no parallel-slice site found (minMaxBy is expected)")
